@@ -190,16 +190,30 @@ def run(chk):
             or (c["rule"] == "exact" and c["term"] in ("mass", "stiff", "coefmass", "xmass", "load", "energy"))]
     sel = s5.sample_cases(pool, 20 if quick else 300, chk.seed + 5, max_cost=30 if quick else 300)
     items = [{"case": c, "seed": chk.seed * 100003 + i, "scalar": "float64", "ninputs": 1 if quick else 2} for i, c in enumerate(sel)]
-    mr = [{"builder": "harness.corpus.realise_multirule", "mr": {"cell": cl, "variant": v}, "seed": chk.seed * 7 + k,
+    mr = [{"builder": "harness.corpus.realise_multirule", "must_compile": True, "mr": {"cell": cl, "variant": v}, "seed": chk.seed * 7 + k,
            "scalar": "float64", "ninputs": 2, "geom": "affine", "label": f"multirule/{cl}/{v}"}
           for k, (cl, v) in enumerate([(cl, v) for cl in ("interval", "triangle", "quadrilateral", "tetrahedron") for v in range(3 if quick else 8)])]
     items += mr
-    items += [{"builder": "harness.corpus.realise_multirule", "mr": {"cell": cl, "variant": 0, "onepoint": True}, "seed": chk.seed * 7 + 50 + k,
+    items += [{"builder": "harness.corpus.realise_multirule", "must_compile": True, "mr": {"cell": cl, "variant": 0, "onepoint": True}, "seed": chk.seed * 7 + 50 + k,
                "scalar": "float64", "ninputs": 1, "geom": "affine", "label": f"multirule/{cl}/onepoint"}
               for k, cl in enumerate(("interval", "triangle", "quadrilateral", "tetrahedron"))]
+    items += [{"builder": "harness.corpus.realise_multirule", "must_compile": True, "mr": {"cell": cl, "variant": v, "samesize": True}, "seed": chk.seed * 7 + 70 + k,
+               "scalar": "float64", "ninputs": 1, "geom": "affine", "label": f"multirule/{cl}/samesize{v}"}
+              for k, (cl, v) in enumerate([(cl, v) for cl in ("interval", "triangle", "quadrilateral", "tetrahedron", "hexahedron")
+                                           for v in ((0,) if quick else (0, 1))])]
+    # several rules in one facet integral (vertex scheme / custom facet rule / default rule)
+    fm = [(cl, ms, v) for cl in ("triangle", "quadrilateral", "tetrahedron", "hexahedron") for ms in ("ds", "dS") for v in range(12)]
+    random.Random(chk.seed + 21).shuffle(fm)
+    if quick:                                          # every combination of rules once, the vertex-after-another-rule one twice
+        fm = [next(t for t in fm if t[2] == v) for v in (0, 1, 2, 3, 4, 5, 7, 9, 6)]
+    fm = sorted(fm, key=lambda t: t[2])
+    for kk, (cl, ms, v) in enumerate(fm):
+        items.append({"builder": "harness.corpus.realise_facet_multirule", "must_compile": True, "fm": {"cell": cl, "variant": v, "measure": ms},
+                      "seed": chk.seed * 17 + kk, "scalar": "float64", "ninputs": 1, "geom": "affine", "max_entities": 2, "npairs": 1, "nperm": 1,
+                      "label": f"facetmultirule/{cl}/{ms}/v{v}"})
     # integrals with and without an explicit degree on one subdomain
     for kk, (cl, var) in enumerate([(cl, var) for cl in ("interval", "triangle", "quadrilateral", "tetrahedron") for var in range(3 if quick else 6)]):
-        items.append({"builder": "harness.corpus.realise_mixedmeta", "mm": {"cell": cl, "variant": var}, "seed": chk.seed * 13 + kk,
+        items.append({"builder": "harness.corpus.realise_mixedmeta", "must_compile": True, "mm": {"cell": cl, "variant": var}, "seed": chk.seed * 13 + kk,
                       "scalar": "float64", "ninputs": 1, "geom": "affine", "label": f"mixedmeta/{cl}/v{var}"})
     # the vertex scheme on facets (weights are those of the facet, not of the cell)
     fcs = s5.enumerate_formspace(chk, facets=True)
@@ -213,7 +227,7 @@ def run(chk):
             for rank in ((0, 1) if quick else (0, 1, 2)):
                 if s5.basix_rational_rule(cl, q, "default") is None or (cl == "hexahedron" and rank == 2):
                     continue
-                items.append({"builder": "harness.corpus.realise_underint", "ui": {"cell": cl, "q": q, "rank": rank, "how": "degree" if k % 2 else "metadata"},
+                items.append({"builder": "harness.corpus.realise_underint", "must_compile": True, "ui": {"cell": cl, "q": q, "rank": rank, "how": "degree" if k % 2 else "metadata"},
                               "seed": chk.seed * 11 + k, "scalar": "float64", "ninputs": 1, "geom": "affine",
                               "label": f"underint/{cl}/degree={q}/rank{rank}"})
                 k += 1
